@@ -233,7 +233,19 @@ pub const PATH_STRINGS: &[&str] = &[
 /// Environment the path expansion of C31 runs under (set once per process by the property).
 pub const PATH_ENV: &[(&str, &str)] = &[("VERIF_TILDE", "~"), ("VERIF_EMPTY", ""), ("VERIF_TILDE_E", "~é")];
 
+/// building blocks of the placeholder syntaxes (`${name}`, `{name}`, `{env:NAME}`, `$NAME`, `~`)
+const PATH_FRAGMENTS: &[&str] = &["{", "}", "$", "${", "env", "env:", "envé", "en", "workspaceFolder", "luarocks", ":", "~", "/", "é", "x", "HOME", "VERIF_TILDE", "VERIF_EMPTY", " ", "\\", ".", "😀"];
+
 pub fn path_string(rng: &mut Rng) -> String {
+    if rng.chance(1, 4) {
+        // free composition of placeholder fragments: malformed / truncated / unknown placeholders
+        let n = rng.range(1, 6);
+        let mut s = String::new();
+        for _ in 0..n {
+            s.push_str(rng.pick(PATH_FRAGMENTS));
+        }
+        return s;
+    }
     if rng.chance(1, 6) {
         // compose two fragments
         format!("{}{}", rng.pick(PATH_STRINGS), rng.pick(PATH_STRINGS))
